@@ -923,10 +923,15 @@ class IMAPClientCommand:
             self.silent = False
         self._p_simple_string(" ")
 
+        # store_att_flags ::= ... SPACE (flag_list / (flag *(SPACE flag)))
+        #
+        # NOTE: Without the parentheses there may still be several flags:
+        #       `STORE 1 +FLAGS \Seen \Deleted` sets both.
+        #
         if self._p_simple_string("(", silent=True, swallow=False):
             self.flag_list = self._p_paren_list_of(self._p_flag)
         else:
-            self.flag_list = [self._p_flag()]
+            self.flag_list = self._p_list_of(self._p_flag)
 
     #######################################################################
     #
